@@ -85,3 +85,16 @@ pub fn cached_reader_builder_with_schema(
     let file = File::open(path)?;
     Ok(ParquetRecordBatchReaderBuilder::new_with_metadata(file, md))
 }
+
+/// Verification hook: pre-seed the footer cache for an existing `path` with synthetic
+/// metadata (any row-group inventory), so footer-only code such as split enumeration can
+/// be exercised by the /verif harness on row-group sizes no test file could have.
+#[cfg(qe_verif)]
+pub fn verif_inject(path: &Path, md: ArrowReaderMetadata) -> Result<()> {
+    let mtime = std::fs::metadata(path)?.modified()?;
+    CACHE
+        .write()
+        .get_or_insert_with(HashMap::new)
+        .insert(path.to_path_buf(), (mtime, md));
+    Ok(())
+}
